@@ -83,6 +83,7 @@ type funcEvidence struct {
 	OutOfSubset []string `json:"out_of_subset,omitempty"`
 	Uncontract  []string `json:"uncontracted_calls,omitempty"`
 	Inlined     []string `json:"inlined,omitempty"`
+	EffectFree  []string `json:"inferred_effect_free,omitempty"`
 	ModuloReal  bool     `json:"modulo_real,omitempty"`
 }
 
@@ -222,6 +223,10 @@ func cmdCheck(args []string) {
 		for k := range u.Ctx.inlined {
 			fe.Inlined = append(fe.Inlined, k)
 		}
+		for k := range u.Ctx.effectFreeUsed {
+			fe.EffectFree = append(fe.EffectFree, k)
+		}
+		sort.Strings(fe.EffectFree)
 		sort.Strings(fe.Uncontract)
 		sort.Strings(fe.Inlined)
 		fe.ModuloReal = u.Ctx.usesReal
